@@ -1,6 +1,6 @@
 (* Extraction of the executable models and specs to OCaml. ExtrOcamlBasic only: bool, option, unit,
    list, prod, sumbool, sumor mapped to OCaml's; N, Z, positive, nat stay Coq datatypes. *)
-From HV Require Import Base_Bytes Spec_SHA Spec_HMAC Model_BlockHash Model_Sha2Ctx Model_Sha1Ctx Model_Hash Model_Hmac Base_Result Spec_OTP Model_Otp Spec_KDF Model_Kdf Model_CtEq Model_Token Proofs_Token Model_Args Spec_Base36 Model_Base36.
+From HV Require Import Base_Bytes Spec_SHA Spec_HMAC Model_BlockHash Model_Sha2Ctx Model_Sha1Ctx Model_Hash Model_Hmac Base_Result Spec_OTP Model_Otp Spec_KDF Model_Kdf Model_CtEq Model_Token Proofs_Token Model_Args Spec_Base36 Model_Base36 Model_SecureBuffer Spec_Base32 Model_Base32 Spec_Base64 Model_Base64.
 Require Import ExtrOcamlBasic.
 Extraction Language OCaml.
 Extraction "model.ml"
@@ -18,4 +18,7 @@ Extraction "model.ml"
   v_get_hash v_get_hmac v_hmac_init v_hmac_update v_hmac_final v_pbkdf2_vec v_pbkdf2_buf v_pepper v_hkdf_extract v_hkdf_expand
   v_hotp v_totp_at v_totp_now v_hotp_from_digest v_token v_secret_set
   base36_encode base36_decode b36_spec_encode b36_spec_decode is_alnum
+  step destroy init_state contents block_clean spec_step
+  base32_encode base32_decode b32_spec_encode b32_spec_value b32_filter b32_langb
+  base64_encode base64_decode b64_spec_encode b64_filter b64_langb b64_spec_value
   ct_equals.
